@@ -1,10 +1,10 @@
 """Property -> rules (DESIGN.md section 4)."""
-from .rules import live, walk
+from .rules import live, walk, exc
 
 SW, GR, OP, BF = 'dsw.spiderweb.', 'dsw.graphized.', 'dsw.operation.', 'dsw.biofilter.'
 
 
-def c05(ctx):
+def coder_common(ctx):
     fqs = ctx.closure(SW + 'encode', SW + 'decode')
     live.r_live(ctx, fqs, floor=4, what='liveness predicates in encode/decode')
     live.r_alpha(ctx, fqs, floor=2)
@@ -12,10 +12,35 @@ def c05(ctx):
     walk.r_deg(ctx, ['encode', 'decode'])
     walk.r_sel(ctx)
     walk.r_endian(ctx)
+
+
+def c01(ctx):
+    coder_common(ctx)
     walk.r_ahead(ctx)
+    walk.r_vtuse(ctx)
+    exc.r_typed_index(ctx, SW + 'set_vt')
+    exc.r_typed_dispatch(ctx, ctx.closure(SW + 'encode', SW + 'decode'), floor=2)
+
+
+def c05(ctx):
+    coder_common(ctx)
     walk.r_vtuse(ctx)
 
 
+def c06(ctx):
+    fqs = ctx.closure(SW + 'decode')
+    live.r_live(ctx, fqs, floor=2, what='liveness predicates in decode')
+    live.r_alpha(ctx, fqs, floor=1)
+    walk.r_walk(ctx, [SW + 'decode'], {SW + 'decode': 3})
+    walk.r_deg(ctx, ['decode'])
+    walk.r_vtuse(ctx)
+    exc.r_exc(ctx, SW + 'decode', {'ValueError'}, floor=5)
+    exc.r_typed_index(ctx, SW + 'set_vt')
+    exc.r_typed_dispatch(ctx, fqs, floor=2)
+
+
 PROPERTIES = {
+    'C01': c01,
     'C05': c05,
+    'C06': c06,
 }
